@@ -158,12 +158,13 @@ class TlsWorld(World):
         return {str(k): v for (k, v) in dict(res[1]).items()} if res[0] == 'ok' else res
 
 
-def run_exchange(world, peer_can_tls):
-    '''The scripted peer plays a correct TCPCL peer.'''
+def run_exchange(world, peer_can_tls, peer_flags=None, node_id=None):
+    '''The scripted peer plays a correct TCPCL peer (peer_flags: the whole flags octet of its
+    contact header, reserved bits included; node_id: what its SESS_INIT announces).'''
     world.quiesce()
-    world.peer_write(T.enc_contact(1 if peer_can_tls else 0))
+    world.peer_write(T.enc_contact(peer_flags if peer_flags is not None else (1 if peer_can_tls else 0)))
     world.quiesce()
-    world.peer_write(T.enc_sess_init(0, 64, 1000, PEER_NODE))
+    world.peer_write(T.enc_sess_init(0, 64, 1000, PEER_NODE if node_id is None else node_id))
     world.quiesce()
     (msgs, _rest) = T.parse_all(world.out, with_contact=True)
     kinds = [m['kind'] for m in msgs]
@@ -191,12 +192,14 @@ def run_table1(params, known):
         v = Violation(PROP, 'tls-policy', kind, sig, '%r: %s' % (row, detail)).as_dict()
         v['case'] = row
         violations.append(v)
-    for (tls_enable, peer_can, require, role, hs_ok) in itertools.product((True, False), (True, False), (None, True, False),
-                                                                          ('active', 'passive'), (True, False)):
+    # the peer's flags octet: CAN_TLS is bit 0, the other bits are reserved and must be ignored
+    for (tls_enable, peer_flags, require, role, hs_ok) in itertools.product((True, False), (0x00, 0x01, 0x03, 0x81, 0xFE, 0xFF),
+                                                                            (None, True, False), ('active', 'passive'), (True, False)):
         count += 1
-        row = dict(tls_enable=tls_enable, peer_can_tls=peer_can, require_tls=require, role=role, handshake_ok=hs_ok)
+        peer_can = bool(peer_flags & 1)
+        row = dict(tls_enable=tls_enable, peer_can_tls=peer_can, peer_flags=peer_flags, require_tls=require, role=role, handshake_ok=hs_ok)
         world = TlsWorld(role, tls_enable, require, False, False, False, hs_ok, make_cert(()))
-        obs = run_exchange(world, peer_can)
+        obs = run_exchange(world, peer_can, peer_flags=peer_flags)
         if world.escaped:
             viol('exception-escaped-callback', dict(exc=world.escaped[-1][0]), '%s: %s' % world.escaped[-1][:2], row)
             continue
@@ -272,8 +275,9 @@ def make_cert(sans):
     return _CERTS[key]
 
 
-def policy(sans, role, by_name, require_host, require_node):
-    '''Independent statement: returns True when the session may be established.'''
+def policy(sans, role, by_name, require_host, require_node, announced='own'):
+    '''Independent statement: returns True when the session may be established.
+    announced='empty': the peer announces a zero-length node ID, which no URI name equals.'''
     ip_ids = [s for s in sans if s.startswith('ip-')]
     dns_ids = [s for s in sans if s.startswith('dns-')]
     uri_ids = [s for s in sans if s.startswith('uri-')]
@@ -287,7 +291,7 @@ def policy(sans, role, by_name, require_host, require_node):
         dns_ok = 'dns-match' in dns_ids
         if dns_ids and not dns_ok:
             return False
-    node_ok = 'uri-match' in uri_ids
+    node_ok = 'uri-match' in uri_ids and announced == 'own'
     if uri_ids and not node_ok:
         return False
     if require_host and not (ip_ok or dns_ok):
@@ -316,18 +320,19 @@ def run_table2(params, known):
     idx = -1
     for bits in range(64):
         sans = tuple(SAN_BITS[i] for i in range(6) if bits >> i & 1)
-        for (by_name, require_host, require_node, role) in itertools.product((False, True), (False, True), (False, True), ('active', 'passive')):
+        for (by_name, require_host, require_node, role, announced) in itertools.product((False, True), (False, True), (False, True),
+                                                                                       ('active', 'passive'), ('own', 'empty')):
             idx += 1
             if idx % parts != part:
                 continue
             count += 1
-            row = dict(sans=list(sans), by_name=by_name, require_host=require_host, require_node=require_node, role=role)
+            row = dict(sans=list(sans), by_name=by_name, require_host=require_host, require_node=require_node, role=role, announced=announced)
             world = TlsWorld(role, True, True, require_host, require_node, by_name, True, make_cert(sans))
-            obs = run_exchange(world, True)
+            obs = run_exchange(world, True, node_id=(None if announced == 'own' else b''))
             if world.escaped:
                 viol('exception-escaped-callback', dict(exc=world.escaped[-1][0]), '%s: %s' % world.escaped[-1][:2], row)
                 continue
-            allowed = policy(sans, role, by_name, require_host, require_node)
+            allowed = policy(sans, role, by_name, require_host, require_node, announced)
             if allowed:
                 if not obs['established']:
                     viol('session-refused-although-identifiers-are-acceptable', dict(), repr(obs), row)
@@ -363,10 +368,10 @@ ASSUMPTIONS = [
     'the TLS handshake is scripted (succeeds or raises SSLError); only the policy decisions around it are decided',
     'certificates are real X.509 (EC P-256, self-signed) carrying the chosen subject alternative names',
     'an identifier type "contradicts" when the certificate presents names of that type and none equals the reference; with no reference (peer DNS name unknown) a DNS name cannot contradict and cannot authenticate the host',
-    'a correct scripted peer: contact header, then SESS_INIT announcing its node ID',
+    'a correct scripted peer: contact header (flags octet 0x00, 0x01, 0x03, 0x81, 0xFE or 0xFF: reserved bits are ignored), then SESS_INIT announcing its node ID or a zero-length node ID (which no URI name of a certificate equals)',
 ]
 
-RULE = ('complete decision tables (48 + 1024 rows) executed on a fresh real endpoint each; non-trivial = rows in which the '
+RULE = ('complete decision tables (144 + 2048 rows) executed on a fresh real endpoint each; non-trivial = rows in which the '
         'policy forbids the session (table 2) or allows it (table 1)')
 
 
